@@ -142,6 +142,7 @@ func rewriteFile(path string, steps bool) ([]byte, error) {
 		"sync":        {"sync", modPath + "/zverif/vsync"},
 		"sync/atomic": {"atomic", modPath + "/zverif/vatomic"},
 		"time":        {"time", modPath + "/zverif/vtime"},
+		"context":     {"context", modPath + "/zverif/vctx"},
 	}
 	for _, im := range f.Imports {
 		p, _ := strconv.Unquote(im.Path.Value)
